@@ -22,7 +22,7 @@ import (
 func init() {
 	Register(&Prop{
 		ID: "C15", NoShrink: true,
-		Rule: "Serve over an in-memory listener with 1..4 connections in scripted positions (idle keep-alive, handler of the first or of the second keep-alive request in flight on a gate, pipelined with the first handler in flight, already closed) when Shutdown is called, ReduceMemoryUsage on/off; handlers are released 0..60 ms after Shutdown began; " +
+		Rule: "Serve over an in-memory listener with 1..4 connections in scripted positions (idle keep-alive, handler of the first or of the second keep-alive request in flight on a gate, pipelined with the first handler in flight, already closed) when Shutdown is called, ReduceMemoryUsage on/off, on a fresh Server or on one that already went through a Serve/Shutdown cycle; handlers are released 0..60 ms after Shutdown began; " +
 			"monitor at Shutdown's nil return: listener refuses Dial, Serve has returned, no handler is running, every started handler's response reached its client, Done was closed while handlers were in flight, idle connections were closed; " +
 			"non-trivial = at least one handler in flight at Shutdown; distinct = distinct input",
 		Parallel: true,
@@ -59,6 +59,33 @@ func init() {
 					}
 					ctx.SetBodyString("ok-" + string(ctx.QueryArgs().Peek("id")))
 				}}
+			// cy=1: the same Server value already went through one complete Serve / request / Shutdown cycle
+			secondCycle := len(a) > 2 && strings.Contains(string(a[2]), "cy=1")
+			warmErr := ""
+			if secondCycle {
+				ln0 := fasthttputil.NewInmemoryListener()
+				d0 := make(chan struct{})
+				go func() { s.Serve(ln0); close(d0) }()
+				if c0, err := ln0.Dial(); err == nil {
+					fmt.Fprintf(c0, "GET /?id=warm HTTP/1.1\r\nHost: h\r\n\r\n")
+					c0.SetReadDeadline(time.Now().Add(10 * time.Second))
+					if resp, err := http.ReadResponse(bufio.NewReader(c0), nil); err != nil {
+						warmErr = "warm-up request: " + err.Error()
+					} else {
+						resp.Body.Close()
+					}
+					c0.Close()
+				}
+				if err := s.Shutdown(); err != nil {
+					warmErr = "warm-up Shutdown: " + err.Error()
+				}
+				select {
+				case <-d0:
+				case <-time.After(10 * time.Second):
+					warmErr = "warm-up: Serve did not return after Shutdown"
+				}
+				ln0.Close()
+			}
 			serveDone := make(chan struct{})
 			go func() { s.Serve(ln); close(serveDone) }()
 			type cl struct {
@@ -214,9 +241,12 @@ func init() {
 			}
 			impl := fmt.Sprintf("err=%v took=%dms runningAtRelease=%d runningAtReturn=%d serveReturned=%v dialRefused=%v missing=%v doneSeen=%d/%d",
 				err, took.Milliseconds(), runningAtRelease, runningAtReturn, serveReturned, dialRefused, missing, doneSeen.Load(), nHold)
-			return &Case{Impl: impl, Nontrivial: nHold > 0 || strings.Contains(script, "w"), Tags: []string{"shutdown", fmt.Sprintf("rm=%v", reduceMem)},
+			return &Case{Impl: impl, Nontrivial: nHold > 0 || strings.Contains(script, "w"), Tags: []string{"shutdown", fmt.Sprintf("rm=%v", reduceMem), fmt.Sprintf("second-cycle=%v", secondCycle)},
 				Judge: func([]string) Verdict {
-					desc := fmt.Sprintf("script %q delay %v ReduceMemoryUsage=%v: %s", script, delay, reduceMem, impl)
+					desc := fmt.Sprintf("script %q delay %v ReduceMemoryUsage=%v secondServeShutdownCycleOfThisServer=%v: %s", script, delay, reduceMem, secondCycle, impl)
+					if warmErr != "" {
+						return Verdict{VSpec, "first-cycle-failed", desc + ": " + warmErr}
+					}
 					if err != nil {
 						return Verdict{VSpec, "shutdown-error-or-hang", desc}
 					}
@@ -257,7 +287,7 @@ func init() {
 				if r.Chance(30) {
 					sc = append(sc, 'w') // always last: its parked hook blocks the accept loop
 				}
-				emit("shutdown", sc, []byte{byte([]int{0, 5, 20, 60}[r.Intn(4)])}, B(r.Pick([]string{"rm=0", "rm=1"})))
+				emit("shutdown", sc, []byte{byte([]int{0, 5, 20, 60}[r.Intn(4)])}, B(r.Pick([]string{"rm=0", "rm=1", "rm=0,cy=1", "rm=1,cy=1"})))
 			}
 		},
 	})
